@@ -103,7 +103,7 @@ fn ids(evs: &[SharedEvent]) -> Vec<i64> {
 // --------------------------------------------------------------- generator
 
 fn build(kind: u8, size: i64, partitioned: bool, unit_s: bool, mode: u8, raw: Vec<(u8, u8, u8, u8)>) -> Case {
-    let with_wm = mode & 1 == 1 && kind != 1;
+    let with_wm = (mode & 1 == 1 || mode == 4) && kind != 1;
     let disorder = mode & 2 == 2;
     let mut cur = 0i64;
     let mut steps = vec![];
@@ -128,6 +128,16 @@ fn build(kind: u8, size: i64, partitioned: bool, unit_s: bool, mode: u8, raw: Ve
         };
         steps.push(Step::Ev { ts, key });
     }
+    if mode == 4 {
+        // truthful flavour: no watermark is ahead of a later event
+        let mut min_later = i64::MAX;
+        for s in steps.iter_mut().rev() {
+            match s {
+                Step::Ev { ts, .. } => min_later = min_later.min(*ts),
+                Step::Wm { ts } => *ts = (*ts).min(min_later),
+            }
+        }
+    }
     Case { kind, size, partitioned, unit_s, steps }
 }
 
@@ -136,7 +146,7 @@ fn strat(partitioned: bool) -> impl Strategy<Value = Case> {
         0u8..3,
         1i64..=5,
         any::<bool>(),
-        prop_oneof![3 => Just(0u8), 3 => Just(1u8), 1 => Just(2u8), 1 => Just(3u8)],
+        prop_oneof![3 => Just(0u8), 2 => Just(1u8), 1 => Just(2u8), 1 => Just(3u8), 3 => Just(4u8)],
         proptest::collection::vec((0u8..100, 0u8..8, 0u8..100, 0u8..8), 0..=60),
     )
         .prop_map(move |(kind, size, unit_s, mode, raw)| build(kind, size, partitioned, unit_s, mode, raw))
